@@ -2,3 +2,8 @@ import BalmProofs.Props.C07
 #print axioms Balm.Drivers.findDrivers_spec
 #print axioms Balm.Drivers.exists_min_below
 #print axioms Balm.Impl.findDrivers_sound
+#print axioms Balm.Impl.findDrivers_complete
+#print axioms Balm.Impl.findDrivers_minimal
+#print axioms Balm.Impl.findDrivers_eq_gen
+#print axioms Balm.Impl.Gen.result_complete
+#print axioms Balm.Impl.Gen.result_minimal
